@@ -35,7 +35,7 @@ type profile struct {
 
 func defaultProfile() profile {
 	return profile{
-		encsMain: []string{"I32"}, encsSmall: []string{"String16", "VarEnc", "Type", "Bytes3", "U64", "I8", "Int"},
+		encsMain: []string{"I32"}, encsSmall: []string{"String16", "VarEnc", "Type", "TypeOff", "TypeID", "Bytes3", "U64", "I8", "Int"},
 		insts:  []string{h.InstFresh, h.InstUnm, h.InstProto},
 		needQs: true, nilVals: true,
 		quickIDk: 4, quickScafK: 3, thoroughIDk: 6, thoroughScafK: 3, u85k: 3,
@@ -466,6 +466,8 @@ func buildPhases(r *h.Run, p profile) []phase {
 		}
 		if thorough {
 			lens = append(lens, 511, 512, 513, 1023, 1024, 8191, 8192, 16000)
+		} else {
+			lens = append(lens, 8191, 8192, 8193) // 65536 bits: the 16-bit boundary of a step counted in bits
 		}
 		rich := [][]string{
 			{"", "\x00", "\x0f", "\xf0", "\xff"},
